@@ -343,4 +343,77 @@ def selProg (c : Cfg (Node β)) (addr : β → Nat) (f0 : Calls (Node β))
     (`Py_INCREF(first_frame)`) the first frame stays allocated and it cannot -/
 def laterFrameAddr (pin : Bool) (first fresh : Nat) : Nat := if pin then fresh else first
 
+/-! ## 6. code objects: where the name of a Python function comes from
+
+`convert_function_addr` (:846) takes the frame of the event, reads `frame.f_code` **at the time
+of the event** and builds the name from that object (`co_qualname`, the `__name__` of the frame's
+globals: `get_python_funcname` :778); the object is released again before the function returns
+(:874, "code is not used anymore").  Only then the name is looked up in `code_tree`.  Code objects
+are ordinary heap objects: the ones of functions made by `exec()`/`eval()`/`compile()`, of class
+bodies and of the top-level code of imported modules die while the program goes on, and the
+allocator hands their addresses out again.  In this section an event carries the *address* of its
+code object and the heap as it is at that moment; nothing else about code objects is kept from
+one event to the next — which is what `c19_name_is_current_code_object` says. -/
+
+/-- the code objects alive at some moment: address ↦ the name `get_python_funcname` builds from
+    the object living there (`none`: `PyObject_GetAttrString(frame, "f_code")` fails) -/
+abbrev CodeHeap (β : Type) := Nat → Option β
+
+/-- a `call`/`return` event as `convert_function_addr` sees it -/
+structure CEv (β : Type) where
+  /-- address of `frame.f_code` -/
+  code : Nat
+  /-- the heap when the event is delivered -/
+  heap : CodeHeap β
+
+/-- `convert_function_addr(frame, args, is_pyfunc = true)`: the name of the code object that
+    lives at the address now, then the lookup by name (`convert`) -/
+def convertCode (cmp : β → β → Ordering) (isLib : β → Bool) (t : Tree β) (shm : Shm β) (e : CEv β) :
+    Tree β × Shm β × Option (Sym β) :=
+  match e.heap e.code with
+  | none => (t, shm, none)
+  | some n => let r := convert cmp isLib t shm n; (r.1, r.2.1, some r.2.2)
+
+/-- the symbols handed back for a sequence of events (tables threaded through) -/
+def runCode (cmp : β → β → Ordering) (isLib : β → Bool) : Tree β → Shm β → List (CEv β) → List (Option (Sym β))
+  | _, _, [] => []
+  | t, shm, e :: es =>
+    let r := convertCode cmp isLib t shm e
+    r.2.2 :: runCode cmp isLib r.1 r.2.1 es
+
+/-! ## 7. the launcher: which directory is "the program"
+
+python/uftrace.py makes the script's name absolute (`os.getcwd() + '/' + filename`, or the PATH
+directory it was found in), puts the directory of *that* name in front of `sys.path` and exports
+`UFTRACE_PYMAIN`; `init_uftrace` (:621-633) takes the directory of UFTRACE_PYMAIN for `main_dir`,
+through `realpath()` only when the name is relative; `convert_function_addr` (:903) calls a
+function program code when its `co_filename` starts with `main_dir` + "/".  Paths are lists of
+components; `real` is realpath(3) (an assumption of the environment; nothing is required of it).
+`fixed = true` is the launcher with the repair proposed for F-C19-SCRIPTDIR: one name, the resolved
+one, for both. -/
+abbrev Path := List String
+
+structure Launch where
+  /-- the script as typed (or as found in PATH) -/
+  arg : Path
+  isAbs : Bool
+  cwd : Path
+  real : Path → Path
+
+def Launch.abs (l : Launch) : Path := if l.isAbs then l.arg else l.cwd ++ l.arg
+
+/-- `sys.path.insert(0, os.path.dirname(...))` -/
+def sysPath0 (fixed : Bool) (l : Launch) : Path :=
+  (if fixed then l.real l.abs else l.abs).dropLast
+
+/-- `main_dir` -/
+def mainDir (fixed : Bool) (l : Launch) : Path :=
+  (if fixed then l.real l.abs else if l.isAbs then l.arg else l.real l.abs).dropLast
+
+/-- `!strncmp(file_name, main_dir, main_dir_len) && file_name[main_dir_len] == '/'` -/
+def underDir (dir file : Path) : Bool := dir.isPrefixOf file && decide (dir.length < file.length)
+
+/-- is a function whose code was loaded from `file` program code? -/
+def isProgramFile (fixed : Bool) (l : Launch) (file : Path) : Bool := underDir (mainDir fixed l) file
+
 end Uft.PyHook
